@@ -14,7 +14,9 @@ EXPLANATION = (
     "first serialisation, ors FLAGS_EXCEPTION in before the reply is built, and replies under the documented condition "
     "(truth table shared with C05-R3); no handler on the dispatch path swallows or replaces an exception of user code (methods, "
     "property accessors, stream iterators); every failure of handleRequest ends the connection (no hang); the client raises the decoded object exactly under the exception flag; the batch "
-    "wrapper is written and read as the same class and re-raises its payload. Not decided: equality of args/attributes after "
+    "wrapper is written and read as the same class and re-raises its payload."
+    'Also decided: the default error hook cannot raise (format fields that index their argument are modelled); every serialised exception object carries the traceback text and the error reply is sent on every path; definite assignment in the reporting modules. '
+    "Not decided: equality of args/attributes after "
     "the trip (third-party codecs), all classes x argument shapes."
 )
 
